@@ -2010,9 +2010,7 @@ struct Registry final {
 	FFSM2_CONSTEXPR(11)	bool isActive				()						  const noexcept	{ return active != INVALID_SHORT;								}
 
 	FFSM2_CONSTEXPR(14)	bool isActive				(const StateID stateId)	  const noexcept	{
-		return stateId == 0 ?
-			active != INVALID_SHORT :
-			active == stateId;
+		return active == stateId;
 	}
 
 	FFSM2_CONSTEXPR(14)	void clearRequests			()								noexcept	{		 requested  = INVALID_SHORT;							}
